@@ -56,6 +56,8 @@ type recS struct {
 	dir    p9p.Dir
 	// concurrent mode: answer derived from the fid
 	byFid bool
+	// barrier mode: Stat returns only once all callers have arrived
+	barrier *sync.WaitGroup
 }
 
 func (s *recS) rec(c recCall) {
@@ -111,6 +113,17 @@ func (s *recS) Create(ctx context.Context, fid p9p.Fid, name string, perm uint32
 }
 func (s *recS) Stat(ctx context.Context, fid p9p.Fid) (p9p.Dir, error) {
 	s.rec(recCall{M: "stat", Fid: fid})
+	if s.barrier != nil {
+		// the calls wait for each other: nobody returns before all have arrived
+		s.barrier.Done()
+		ok := make(chan struct{})
+		go func() { s.barrier.Wait(); close(ok) }()
+		select {
+		case <-ok:
+		case <-time.After(6 * time.Second):
+			return p9p.Dir{}, p9p.MessageRerror{Ename: "barrier: the other calls never arrived"}
+		}
+	}
 	if s.byFid {
 		return p9p.Dir{Name: fmt.Sprintf("stat-of-%d", fid)}, nil
 	}
@@ -436,6 +449,48 @@ func stackPass(rig *stackRig, v cmVector, fid p9p.Fid, serr error, checkErr func
 }
 
 // stackConcurrent: n callers, each must get the answer derived from its own fid.
+// stackBarrier (Pipeline.tla with B = n): n concurrent callers whose session calls return only once all n
+// have reached S.  Called directly on S they all complete, so they must complete through the stack.
+func stackBarrier(n int, res *hx.Result) {
+	rig, err := newStackRig(1 << 20)
+	if err != nil {
+		res.Violate("harness", "harness:stack-rig", err.Error(), nil)
+		return
+	}
+	defer rig.cli.Close()
+	rig.s.byFid = true
+	rig.s.barrier = &sync.WaitGroup{}
+	rig.s.barrier.Add(n)
+	var wg sync.WaitGroup
+	var mu sync.Mutex
+	bad := ""
+	nbad := 0
+	for i := 0; i < n; i++ {
+		wg.Add(1)
+		go func(i int) {
+			defer wg.Done()
+			fid := p9p.Fid(5000 + i)
+			ctx, cancel := context.WithTimeout(context.Background(), 8*time.Second)
+			d, err := rig.sess.Stat(ctx, fid)
+			cancel()
+			if err != nil || d.Name != fmt.Sprintf("stat-of-%d", fid) {
+				mu.Lock()
+				nbad++
+				if bad == "" {
+					bad = fmt.Sprintf("caller of fid %d got %q, %v", fid, d.Name, err)
+				}
+				mu.Unlock()
+			}
+		}(i)
+	}
+	wg.Wait()
+	res.Evaluations += n
+	if nbad > 0 {
+		res.Violate("C09", fmt.Sprintf("barrier-calls-do-not-complete:n%d", n), fmt.Sprintf("%d concurrent calls whose session calls wait for each other (each returns once all %d have reached S; all complete when S is called directly): %d did not get their result through the stack; first: %s; S saw %d of them", n, n, nbad, bad, len(rig.s.calls)),
+			map[string]interface{}{"engine": "stack", "barrier": n})
+	}
+}
+
 func stackConcurrent(n, capacity, rounds int, label string, res *hx.Result) bool {
 	rig, err := newStackRig(capacity)
 	if err != nil {
@@ -526,16 +581,102 @@ func stackConcurrent(n, capacity, rounds int, label string, res *hx.Result) bool
 	return ok
 }
 
+// stackDeadlines replays the call sequences of specs/stack/ConnDeadlineVectors.tla: idle times and
+// per-call context deadlines in units of dlUnit on a fresh CSession <-> ServeConn pair each.  The model
+// (ConnDeadline.tla) says every call issued before its own deadline goes through, whatever came before.
+const dlUnit = 350 * time.Millisecond
+
+type dlVector struct {
+	Calls []struct {
+		W int `json:"w"`
+		D int `json:"d"`
+	} `json:"calls"`
+}
+
+func stackDeadlines(vecPath string, res *hx.Result) {
+	var vecs []dlVector
+	if err := hx.ReadNDJSON(vecPath, func(b []byte) error {
+		var v dlVector
+		if err := json.Unmarshal(b, &v); err != nil {
+			return err
+		}
+		vecs = append(vecs, v)
+		return nil
+	}); err != nil {
+		res.Violate("harness", "harness:deadline-vectors", err.Error(), nil)
+		return
+	}
+	var wg sync.WaitGroup
+	var mu sync.Mutex
+	distinct := 0
+	for _, v := range vecs {
+		wg.Add(1)
+		go func(v dlVector) {
+			defer wg.Done()
+			rig, err := newStackRig(1 << 20)
+			if err != nil {
+				res.Violate("harness", "harness:stack-rig", err.Error(), nil)
+				return
+			}
+			defer rig.cli.Close()
+			rig.s.byFid = true
+			for k, c := range v.Calls {
+				time.Sleep(time.Duration(c.W) * dlUnit)
+				fid := p9p.Fid(100 + k)
+				ctx, cancel := context.Background(), context.CancelFunc(func() {})
+				if c.D > 0 {
+					ctx, cancel = context.WithTimeout(ctx, time.Duration(c.D)*dlUnit)
+				}
+				var d p9p.Dir
+				var cerr error
+				ok, _ := hx.RunTimed(5*time.Second, func() { d, cerr = rig.sess.Stat(ctx, fid) })
+				own := ctx.Err() != nil // the call's own deadline passed meanwhile (machine load): no verdict
+				cancel()
+				mu.Lock()
+				res.Evaluations++
+				mu.Unlock()
+				what := fmt.Sprintf("call %d of the sequence %s (idle times w and context deadlines d in units of %v; d = 0: no deadline)", k+1, hx.JS(v.Calls), dlUnit)
+				switch {
+				case !ok:
+					res.Violate("C09", "timed-sequence:call-never-returns", what+" did not return within 5 s although S answers at once", map[string]interface{}{"engine": "stack", "deadline_vector": v})
+					return
+				case cerr != nil && own:
+					mu.Lock()
+					res.Add("steps_skipped", 1)
+					mu.Unlock()
+					return
+				case cerr != nil:
+					res.Violate("C09", "timed-sequence:call-fails", what+fmt.Sprintf(" failed with %v although S answered", cerr), map[string]interface{}{"engine": "stack", "deadline_vector": v})
+					return
+				case d.Name != fmt.Sprintf("stat-of-%d", fid):
+					res.Violate("C09", "timed-sequence:wrong-result", what+fmt.Sprintf(" returned %q", d.Name), map[string]interface{}{"engine": "stack", "deadline_vector": v})
+					return
+				}
+			}
+			mu.Lock()
+			distinct++
+			mu.Unlock()
+		}(v)
+	}
+	wg.Wait()
+	res.Distinct += distinct
+	res.Set("deadline_sequences", len(vecs))
+}
+
 func Stack(args []string) {
 	fl := flag.NewFlagSet("stack", flag.ExitOnError)
 	vec := fl.String("vectors", "", "ndjson from CallMap.tla")
 	out := fl.String("out", "", "result file")
 	rounds := fl.Int("rounds", 50, "calls per concurrent caller")
 	cycle := fl.Bool("cycle", true, "also run the Pipeline counterexample (unbuffered pipe)")
+	dlvec := fl.String("deadlines", "", "ndjson from ConnDeadlineVectors.tla")
 	logging := fl.Bool("logging", false, "additionally run the sequential vectors with S wrapped in p9p.NewLogger")
 	fl.Parse(args)
 	res := hx.NewResult()
 	defer res.Write(*out)
+	if *dlvec != "" {
+		stackDeadlines(*dlvec, res)
+	}
 	stackSequential(*vec, res)
 	if *logging {
 		wrapLogging = true
@@ -548,6 +689,9 @@ func Stack(args []string) {
 	}
 	for _, n := range []int{2, 4, 8, 16, 32} {
 		stackConcurrent(n, 1<<20, *rounds, fmt.Sprintf("buffered-n%d", n), res)
+	}
+	for _, n := range []int{8, 100, 300} {
+		stackBarrier(n, res)
 	}
 	// below the threshold N >= 5 + 2K of the Pipeline model even the unbuffered pipe must work
 	stackConcurrent(4, 1, *rounds, "unbuffered-n4", res)
